@@ -355,12 +355,14 @@ impl Sim {
             }
             ["shutdown", h] => {
                 let h = num(h) as usize;
-                let Some(s) = self.stream_mut(h) else { return "badhandle".into() };
+                let Some(x) = self.handles.get_mut(h) else { return "badhandle".into() };
+                let Some(s) = x.stream.as_mut() else { return "badhandle".into() };
                 let flag = Flag::new(false);
                 let w = flag.waker();
                 let mut cx = Context::from_waker(&w);
                 match Pin::new(s).poll_shutdown(&mut cx) {
-                    Poll::Ready(Ok(())) => "unit".into(),
+                    // (a shutdown call that completes leaves no write call pending)
+                    Poll::Ready(Ok(())) => { x.parked = false; "unit".into() }
                     Poll::Ready(Err(e)) => format!("ioerr {:?}", e.kind()),
                     Poll::Pending => "pending".into(),
                 }
